@@ -140,14 +140,16 @@ PROPS = {
     },
     "C08": {
         "level": "other",
-        "rules": [P.sources_agree, R.coordinates, R.chunks_skipped, E.decode_errors, T.sequence_reader, T.header_reader,
-                  G.pairs_unify, G.sequences],
+        "rules": [P.sources_agree, R.coordinates, R.chunks_skipped, R.no_peeking, E.decode_errors, T.sequence_reader,
+                  T.header_reader, G.pairs_unify, G.sequences, B.varints],
         "thorough": [TH.feature_matrix(E.decode_errors, G.pairs_unify, G.sequences, name="feature_matrix_truncation")],
         "explanation": "By reduction: the decoder reads every byte of the encoding (C07's clauses: G2, G4/G9, R5), every read or "
                        "skip past the end is InputEndedUnexpectedly through one overflow-safe guard (P4) with region ends inside "
                        "the input (R3), no error is swallowed or defaulted (E1), a failed count read or a failed item read in "
-                       "the unknown-size form is an error item, never the end of the sequence (T12): any strict prefix fails at "
-                       "the first read crossing the cut.",
+                       "the unknown-size form is an error item, never the end of the sequence (T12); no decoder looks at how much "
+                       "input remains, so a count or size is never adapted to a short input (R4); the varint decoder is the "
+                       "bit-exact 5-group reader whose every continuation read propagates its error (B4/B5): any strict prefix "
+                       "fails at the first read crossing the cut.",
         "assumptions": [STATIC_ONLY, "version-0 data carries no sizes (format limit, excluded by the property)"],
         "trusted_base": MIR_TB,
     },
@@ -189,11 +191,11 @@ PROPS = {
     },
     "C12": {
         "level": "other",
-        "rules": [G.sequences, T.sequence_writer, T.sequence_reader, G.pairs_unify],
+        "rules": [G.sequences, T.sequence_writer, T.sequence_reader, G.pairs_unify, G.writers_conform],
         "thorough": [TH.feature_matrix(G.sequences, G.pairs_unify, name="feature_matrix_sequences")],
         "explanation": "All SEQ writers have one grammar (serialize_iterator or the same layout hand-written) and all byte "
-                       "containers one (G4); the writer's two size forms (T13) are both accepted by the one shared reader "
-                       "(T12); every reader consumes the whole element stream and arrays check the count (G9, G8); maps are "
+                       "containers one (G4); the four byte containers are pinned to the same FORMAT entry VarU32(len) + bytes (G3); the writer's "
+                       "two size forms (T13) are both accepted by the one shared reader (T12); every reader consumes the whole element stream and arrays check the count (G9, G8); maps are "
                        "sequences of 2-tuples (G2 on the tuple codec).",
         "assumptions": ["element order of hash containers is unordered by nature (excluded by the property)", STATIC_ONLY],
         "trusted_base": MIR_TB,
@@ -272,8 +274,9 @@ PROPS = {
     },
     "C19": {
         "level": "other",
-        "rules": [U.inventory, U.transmutes, U.uninit_apis, U.raw_provenance, W.lifetime_witnesses, W.auto_traits,
-                  G.sequences, ST.make(["U2", "U3"])],
+        "rules": [U.inventory, U.transmutes, U.uninit_apis, U.raw_provenance, U.unbounded_lifetimes, W.lifetime_witnesses,
+                  W.auto_traits,
+                  G.sequences, ST.make(["U2", "U3", "U7"])],
         "thorough": [TH.feature_matrix(U.inventory, U.transmutes, U.uninit_apis, U.raw_provenance, name="feature_matrix_unsafe")],
         "explanation": "Closed inventory of unsafe operations (U1) with a typed obligation at each transmute (U2), no "
                        "uninitialised-memory API (U3), a provenance rule for raw pointers that are handed back as references "
